@@ -595,7 +595,32 @@ func (w *world) sectionRequest(r *rng.R, prefix, endpoint string, served, target
 		return "", nil, false
 	}
 	if len(diff) == 1 && diff[0] != avoidKey && (endpoint == "" || avoidKey != "" || r == nil || r.Pct(50)) {
-		return "/config", mustJSON(map[string]json.RawMessage{prefix + "." + diff[0]: tm[diff[0]]}), true
+		items := map[string]json.RawMessage{prefix + "." + diff[0]: tm[diff[0]]}
+		if r != nil && r.Pct(60) {
+			// a client that sends its desired state: further items of the same section that repeat the served value (scalars only),
+			// before and after the changed one in the order of their names
+			var same []string
+			for k, v := range sm {
+				if k != diff[0] && k != avoidKey && len(v) > 0 && v[0] != '{' && v[0] != '[' && !bytes.Equal(v, []byte("null")) {
+					same = append(same, k)
+				}
+			}
+			sort.Strings(same)
+			if len(same) > 0 {
+				n := 1 + r.Intn(2)
+				for i := 0; i < n; i++ {
+					k := same[r.Intn(len(same))]
+					if i == 0 && r.Pct(60) {
+						k = same[len(same)-1-r.Intn((len(same)+1)/2)] // likely the last name of the request
+					}
+					items[prefix+"."+k] = sm[k]
+				}
+				if w.R != nil {
+					w.R.Count("api-body:changed-item-plus-items-that-repeat-the-served-value")
+				}
+			}
+		}
+		return "/config", mustJSON(items), true
 	}
 	if endpoint == "" || avoidKey != "" {
 		return "", nil, false
